@@ -154,15 +154,20 @@ class Printer(BasePrinter):
         self.print_ssa_value(operand)
 
     def _populate_block_name(
-        self, block: Block, block_index: int | None = None
+        self, block: Block, block_index: int | None = None, use_hint: bool = True
     ) -> None:
         """
         Assign a name to a block. The block must not already have one.
         A hint that looks like a default name (`bb<digits>`) would clash with the
-        positional names and is read back as "no hint", so it is ignored.
+        positional names and is read back as "no hint", so it is ignored; so is the
+        hint of an entry block whose label is not printed (`use_hint=False`).
         """
         assert block not in self._blocks
-        if block.name_hint and not Block.is_default_block_name(block.name_hint):
+        if (
+            use_hint
+            and block.name_hint
+            and not Block.is_default_block_name(block.name_hint)
+        ):
             curr_ind = self.block_names.get(block.name_hint, 0)
             suffix = f"_{curr_ind}" if curr_ind != 0 else ""
             name = f"{block.name_hint}{suffix}"
@@ -258,19 +263,25 @@ class Printer(BasePrinter):
         # printed.
         # A printer may be reused to print the same region more than once, in which
         # case the blocks already have names and must keep them.
-        for block_index, block in enumerate(region.blocks):
-            if block not in self._blocks:
-                self._populate_block_name(block, block_index)
-
-        # Empty region
-        with self.in_braces():
-            if (entry_block := region.blocks.first) is None:
-                self._print_new_line()
-                return
-
+        entry_block = region.blocks.first
+        if entry_block is not None:
             print_entry_block_args = (
                 bool(entry_block.args) and print_entry_block_args
             ) or (not entry_block.ops and print_empty_block)
+        for block_index, block in enumerate(region.blocks):
+            if block not in self._blocks:
+                self._populate_block_name(
+                    block,
+                    block_index,
+                    use_hint=block_index != 0 or print_entry_block_args,
+                )
+
+        # Empty region
+        with self.in_braces():
+            if entry_block is None:
+                self._print_new_line()
+                return
+
             self.print_block(
                 entry_block,
                 print_block_args=print_entry_block_args,
